@@ -11,6 +11,7 @@ drv_c19 — native driver of the C19 model (BD command files).  One request per 
 import Driver.Proto
 import SpsdkVerif.Model.Bd
 import SpsdkVerif.Model.BdStmt
+import SpsdkVerif.Model.BdText
 import SpsdkVerif.Spec.BdSem
 import SpsdkVerif.Spec.BdStmtSem
 open SpsdkVerif Driver
@@ -400,7 +401,9 @@ def step : List String → String
       let (model, rt) := match refParseB genLevels toks with
         | .ok b' => (pyResStr valStr (evalB vars b'), if b' == b then "rt" else "RT-MISMATCH")
         | .error _ => ("E", "RT-FAIL")
-      " ".intercalate (toks.map tokStr) ++ " | " ++ spec ++ " | " ++ model ++ " | " ++ rt
+      -- canonical text of the proved text-level round trip (`-` when the token list has no concrete syntax)
+      let canon := if Lexable [] toks then hexStr (String.ofList (render toks)) else "-"
+      " ".intercalate (toks.map tokStr) ++ " | " ++ spec ++ " | " ++ model ++ " | " ++ rt ++ " | " ++ canon
     | _, _ => "bad-op"
   | "P" :: rest =>
     match rdEnv {} rest with
